@@ -99,7 +99,15 @@ def rule_joins(S, res):
             fn = b.owner.replace("polytune::", "")
             if names[0] in (JOIN_ALL, "futures_util::future::join_all::join_all"):
                 n_join += 1
-                defs, ty = future_origin_defs(fg, k, b, t["args"][0])
+                it = t["args"][0]
+                # a Vec of futures collected first: analyse the iterator it was collected from
+                if it["k"] != "const" and it["p"]["ty"].startswith("alloc::vec::Vec<"):
+                    back = fg.backward(fg.operand_nodes(k, it), node_ok=lambda n: n[0] == k, edge_ok=lambda e: e.kind in ("copy", "ref"))
+                    ls = {n[1] for n in back}
+                    src = [ct for cbi, ct in b.calls() if ct["d"]["l"] in ls and not ct["d"]["pr"] and callee_names(ct) and callee_names(ct)[0].rsplit("::", 1)[-1] in ("collect", "from_iter") and ct["args"] and ct["args"][0]["k"] != "const"]
+                    if len(src) == 1:
+                        it = src[0]["args"][0]
+                defs, ty = future_origin_defs(fg, k, b, it)
                 inst = "%s|try_join_all@%s" % (fn, fl(t["sp"]).rsplit(":", 1)[-1])
                 cdefs = [d for d in defs if any(bb.id == d for bb in fg.bodies.values())]
                 if not cdefs:
@@ -149,7 +157,6 @@ def rule_joins(S, res):
                             if not ok:
                                 probs.append((bb, cbi, "a callee with channel effects that is not given the element as its peer (%s)" % cn[0].rsplit("::", 1)[-1]))
                 # the iterator yields pairwise distinct peers
-                it = t["args"][0]
                 si = SliceInfo(fg, fg.operand_nodes(k, it))
                 ity = it["p"]["ty"] if it["k"] != "const" else ""
                 distinct = "core::ops::range::Range<usize>" in ity or "Enumerate<" in ity
